@@ -440,7 +440,7 @@ def replay(cfg, events):
                     ds.add((s, p, o))
             e2 = {"op": "wf", "fmt": fmt, "family": e.get("family", "")}
             try:
-                data = ds.serialize(format="json-ld" if fmt == "json-ld-ds" else fmt)
+                data = ds.serialize(format="json-ld" if fmt == "json-ld-ds" else fmt, **e.get("ser_kw", {}))
                 e2["res"] = "ok"
                 e2["wellformed"] = wellformed("json-ld" if fmt == "json-ld-ds" else fmt, data)
                 e2["text"] = data[:600]
